@@ -321,7 +321,7 @@ PROPS = {
     },
     "C02": {
         "harness": "c02", "driver": "c02",
-        "lean_modules": ["BleveModel.Props.C02", "BleveModel.Props.BoolSearcher", "BleveModel.Props.ConjSearcher", "BleveModel.Props.DisjSearcher", "BleveModel.Props.BoolLink"],
+        "lean_modules": ["BleveModel.Props.C02", "BleveModel.Props.BoolSearcher", "BleveModel.Props.ConjSearcher", "BleveModel.Props.DisjSearcher", "BleveModel.Props.BoolLink", "BleveModel.Props.Compose"],
         "rule": ("in-memory scorch and upsidedown indexes of 4-14 documents over an 8-word vocabulary (two multi-valued text fields with "
                  "term vectors, numeric, boolean and date fields; several batches, updates and deletes), random query trees to depth 3 "
                  "over the whole family (term, match and/or, phrase, match-phrase, prefix, wildcard, regexp, fuzzy, term/numeric/date "
@@ -338,7 +338,7 @@ PROPS = {
     },
     "C08": {
         "harness": "c08", "driver": "c02",
-        "lean_modules": ["BleveModel.Props.C08", "BleveModel.Props.BoolSearcher", "BleveModel.Props.ConjSearcher", "BleveModel.Props.DisjSearcher", "BleveModel.Props.BoolLink"],
+        "lean_modules": ["BleveModel.Props.C08", "BleveModel.Props.BoolSearcher", "BleveModel.Props.ConjSearcher", "BleveModel.Props.DisjSearcher", "BleveModel.Props.BoolLink", "BleveModel.Props.Compose"],
         "rule": ("the same index and query generator as C02; for each query the searcher built by Query.Searcher over an index reader "
                  "(options: default, score none, term vectors+explain) is driven by a random program of 1-12 Next / forward Advance "
                  "calls (targets at the next id, in gaps left by deleted documents, far ahead, past the last id; Advance as first "
